@@ -297,7 +297,8 @@ func inprocParams(c *core.Ctx) gen.C06Params {
 
 func runInprocCase(c *core.Ctx) {
 	log.SetLevel(log.WarnLevel)
-	dir := filepath.Join(c.Dir, fmt.Sprintf("inproc-%d", c.Idx))
+	// one case in four: the temporary directory has glob characters in its name (/scratch/job[7])
+	dir := filepath.Join(c.Dir, fmt.Sprintf("inproc-%d%s", c.Idx, []string{"", "", "", "-job[7]?x*"}[c.Idx%4]))
 	os.MkdirAll(dir, 0o755)
 	defer os.RemoveAll(dir)
 	os.Setenv("TMPDIR", dir) // the on-disk mode creates its chunk directory under os.TempDir()
